@@ -46,6 +46,16 @@ func (ex *Exec) envFor(fr *Frame, st *State) *Env {
 				}
 			}
 		}
+		// named locals that live in cells
+		for val, r := range fr.regs {
+			if a, ok := val.(*ssa.Alloc); ok && a.Comment != "" && r.P != nil && r.P.Cell != nil {
+				if _, shadow := env.vars[a.Comment]; !shadow {
+					if c, live := st.cells[r.P.Cell]; live {
+						env.vars[a.Comment] = TV{c, ex.u.SortOf(r.P.Cell.typ)}
+					}
+				}
+			}
+		}
 		// source-level names of locals (debug references)
 		for name, sv := range fr.names {
 			if _, shadow := env.vars[name]; shadow {
@@ -77,16 +87,6 @@ func (ex *Exec) envFor(fr *Frame, st *State) *Env {
 				defer func() { recover() }()
 				env.vars[name] = ex.valTV(v, sv.Type(), st)
 			}()
-		}
-		// named locals that live in cells
-		for val, r := range fr.regs {
-			if a, ok := val.(*ssa.Alloc); ok && a.Comment != "" && r.P != nil && r.P.Cell != nil {
-				if _, shadow := env.vars[a.Comment]; !shadow {
-					if c, live := st.cells[r.P.Cell]; live {
-						env.vars[a.Comment] = TV{c, ex.u.SortOf(r.P.Cell.typ)}
-					}
-				}
-			}
 		}
 		if fr.ct != nil {
 			for _, l := range fr.ct.Lets {
@@ -241,6 +241,23 @@ func (ex *Exec) call(fr *Frame, st *State, instr ssa.Value, com *ssa.CallCommon,
 	}
 	fv := ex.val(fr, st, com.Value)
 	if fv.Fn == nil {
+		if prm, ok := com.Value.(*ssa.Parameter); ok && prm.Name() == "next" && fr.top && fr.ct != nil {
+			// continuation postconditions: what this function guarantees when it hands on
+			env := ex.envFor(fr, st)
+			for _, cl := range fr.ct.AtNext {
+				tv, err := env.Translate(cl.E, "Bool")
+				if err != nil {
+					unsupported("at_next %s: %v", cl.Label, err)
+				}
+				props := cl.Props
+				if len(props) == 0 {
+					props = fr.ct.Props
+				}
+				ex.addObl("at-next", cl.Label, props, st, tv.T, fmt.Sprintf("%s:%d", cl.File, cl.Line), cl.Text)
+			}
+			ex.nextCalls++
+			return ex.havocCall(com.Signature(), args, com.Args, st, "next")
+		}
 		ex.havoc("dynamic call through " + com.Value.Name())
 		return ex.havocCall(com.Signature(), args, com.Args, st, "dyn")
 	}
